@@ -1,5 +1,5 @@
 #![no_main]
-//! Operation histories for the container state machines.  The input is decoded structurally into the
+//! Operation histories for the container state machines and graph-algorithm cases.  The input is decoded structurally into the
 //! sub-check's case type (pgcheck::fuzzde: every byte string is a case, small byte mutations are small
 //! case mutations), brought into the strategy's domain by the sub-check's domain function and run
 //! through the same interpreter and model as the proptest campaigns.
@@ -14,6 +14,15 @@ const TARGETS: &[(&str, &str)] = &[
     ("C05", "list/history"),
     ("C14", "acyclic/history"),
     ("C19", "unionfind/history"),
+    ("C08", "traversal/walkers+dfsvisit"),
+    ("C09", "connectivity/all"),
+    ("C10", "shortest/nonneg"),
+    ("C11", "negcost/general"),
+    ("C12", "mst/kruskal+prim"),
+    ("C15", "matching/validity+maximum"),
+    ("C15", "flow/ford_fulkerson"),
+    ("C16", "dominators/simple_fast"),
+    ("C16", "articulation_points/brute"),
 ];
 
 fuzz_target!(|data: &[u8]| {
